@@ -281,6 +281,19 @@ def damage_a_file(rng, plan, files):
              if n in secs]
     if not cands:
         return False
+    if rng.random() < 0.2 and ".shstrtab" in secs:
+        # one byte of a section *name*: libdw does not find that section any
+        # more, and everything that needs it fails while the DIE tree is intact
+        so, ss = secs[".shstrtab"]
+        names = [n for n in (".debug_str", ".debug_line", ".debug_loc", ".debug_ranges", ".debug_aranges", ".debug_types", ".symtab", ".strtab")
+                 if n in secs]
+        if names:
+            n = rng.choice(names)
+            at = data.find(n.encode() + b"\0", so, so + ss)
+            if at >= 0:
+                plan["files"].append({"vpath": "/sim/0/" + f, "backing": "", "errno": 0,
+                                      "patches": [[at + len(n) - 1, ord("X")]]})
+                return True
     off, size = secs[rng.choice(cands)]
     npatch = rng.choice([1, 1, 1, 2])
     patches = []
